@@ -43,7 +43,7 @@ func (e *env) runYAML(n *netceptor.Netceptor, ctl *controlsvc.Server, doc string
 	Must(os.WriteFile(f, []byte(doc), 0o600))
 	cl := cmdline.NewCmdline()
 	cl.SetOutput(io.Discard)
-	for _, app := range []string{"receptor-tls", "receptor-control-service", "receptor-proxies", "receptor-backends"} {
+	for _, app := range []string{"receptor-tls", "receptor-control-service", "receptor-command-service", "receptor-proxies", "receptor-backends"} {
 		cl.AddRegisteredConfigTypes(app)
 	}
 	return cl.ParseAndRun([]string{"--config", f}, []string{"Prepare", "Run"})
@@ -118,6 +118,9 @@ func (e *env) tlsClientYAML(name string, cp cliProfile, tag string) string {
 	if cp.cert != nil {
 		cf, kf := e.writePair("cli-"+tag, cp.cert)
 		fmt.Fprintf(&sb, "    cert: %s\n    key: %s\n    skipreceptornamescheck: true\n", cf, kf)
+	} else {
+		// cert and key are required keys of tls-client; empty values mean "no client certificate"
+		sb.WriteString("    cert: \"\"\n    key: \"\"\n")
 	}
 	if len(cp.pins) > 0 {
 		var fs []string
@@ -166,5 +169,496 @@ func (e *env) backendDial(kind string, port int, cp cliProfile, tag string, list
 	}
 }
 
-var _ = bufio.NewReader
-var _ = tls.VersionTLS12
+// a TCP echo server behind TLS presenting cc (what an outbound proxy or a TLS client connects to)
+func (e *env) tlsEchoServer(cc *certCase) (int, func()) {
+	l, err := tls.Listen("tcp", "127.0.0.1:0", &tls.Config{Certificates: []tls.Certificate{{Certificate: cc.Raw, PrivateKey: e.p.leafKey}}, MinVersion: tls.VersionTLS12})
+	Must(err)
+	go func() {
+		for {
+			c, err := l.Accept()
+			if err != nil {
+				return
+			}
+			go func() {
+				defer c.Close()
+				_ = c.SetDeadline(time.Now().Add(10 * time.Second))
+				buf := make([]byte, 64)
+				n, err := c.Read(buf)
+				if err == nil {
+					_, _ = c.Write(append([]byte("echo:"), buf[:n]...))
+				}
+			}()
+		}
+	}()
+	return l.Addr().(*net.TCPAddr).Port, func() { _ = l.Close() }
+}
+
+// write a probe, expect the echo: true = the whole path was established
+func probeEcho(c net.Conn, wait time.Duration) (bool, error) {
+	res := make(chan error, 1)
+	go func() {
+		if _, err := c.Write([]byte("ping")); err != nil {
+			res <- err
+			return
+		}
+		// (a command service's terminal echoes the probe before the command's output)
+		var got []byte
+		buf := make([]byte, 64)
+		for !strings.Contains(string(got), "echo:ping") {
+			n, err := c.Read(buf)
+			got = append(got, buf[:n]...)
+			if err != nil && !strings.Contains(string(got), "echo:ping") {
+				res <- fmt.Errorf("%v (received %q)", err, got)
+				return
+			}
+			if len(got) > 512 {
+				res <- fmt.Errorf("unexpected reply %q", got)
+				return
+			}
+		}
+		res <- nil
+	}()
+	select {
+	case err := <-res:
+		return err == nil, err
+	case <-time.After(wait):
+		return false, fmt.Errorf("no echo within %v", wait)
+	}
+}
+
+// first line of the control service: "Receptor Control, node <id>"
+func readBanner(c net.Conn, wait time.Duration) (bool, error) {
+	res := make(chan error, 1)
+	go func() {
+		line, err := bufio.NewReader(c).ReadString('\n')
+		if err == nil && !strings.HasPrefix(line, "Receptor Control, node ") {
+			err = fmt.Errorf("unexpected banner %q", line)
+		}
+		res <- err
+	}()
+	select {
+	case err := <-res:
+		return err == nil, err
+	case <-time.After(wait):
+		return false, fmt.Errorf("no banner within %v", wait)
+	}
+}
+
+// The proxies keep the accepted side open when their onward connection is refused, so a refusal
+// shows only as silence: wait long where the property demands an echo, briefly where it does not.
+func echoWait(cc *certCase, v vrun) time.Duration {
+	if mustAccept, _, _ := cc.oracle(v, time.Now().UnixNano()); mustAccept {
+		return 8 * time.Second
+	}
+	return 1200 * time.Millisecond
+}
+
+type consumerJudge struct {
+	e        *env
+	consumer string
+}
+
+// verdict of one consumer on one certificate: oracle + histogram; returns the case time
+func (j consumerJudge) judge(cc *certCase, v vrun, ok bool, err error, what string) {
+	e := j.e
+	now := time.Now().UnixNano()
+	mustAccept, mustRefuse, failed := cc.oracle(v, now)
+	rec := map[string]interface{}{"level": "consumer:" + j.consumer, "what": what, "cert": cc.Label, "run": v.String(), "impl_error": fmt.Sprint(err), "failed_conditions": failed}
+	e.im.Hist(fmt.Sprintf("consumer:%s:ok=%v", j.consumer, ok))
+	e.im.Count("consumer "+j.consumer+" "+what+" "+cc.Label+" "+v.String(), true)
+	if mustRefuse && ok {
+		e.im.Violate(fmt.Sprintf("%s (%s) is ESTABLISHED although %v (%s)", j.consumer, what, failed, cc.Label), "consumer-accepts:"+j.consumer+":"+failed[0], rec)
+	}
+	if mustAccept && !ok {
+		e.im.Violate(fmt.Sprintf("%s (%s) is refused although every condition holds: %v (%s)", j.consumer, what, err, cc.Label), "consumer-refuses-good:"+j.consumer, rec)
+	}
+	e.im.Sample(rec)
+}
+
+func (e *env) consumerTier() {
+	r := e.c.Rng
+	lid := "cons-a"
+	A, stopA := newNode(lid)
+	defer stopA()
+	ctl := controlsvc.New(false, A)
+	mk := func(iss, win, eku, nam int, E string) *certCase {
+		return e.p.make(certParams{Issuer: iss, Window: win, EKU: eku, Names: nam, E: E, O: "elsewhere", O2: E + "-2", D: "localhost", DOther: "other.example"})
+	}
+	// certificates a listener presents; dialers expect the DNS name localhost (backends, tcp
+	// connections) or the node ID cons-a (receptor services)
+	type variant struct {
+		name string
+		cc   *certCase
+	}
+	srv := []variant{
+		{"good", mk(issRoot, winValid, ekuServer, namSeveral, lid)},
+		{"otherca", mk(issOther, winValid, ekuServer, namSeveral, lid)},
+		{"expired", mk(issRoot, winExpired, ekuServer, namSeveral, lid)},
+		{"clientusage", mk(issRoot, winValid, ekuClient, namSeveral, lid)},
+		{"wrongdns", mk(issRoot, winValid, ekuServer, namDNSOther, lid)},
+		{"othernode", mk(issRoot, winValid, ekuServer, namOther, lid)},
+	}
+	// certificates a dialer presents to listeners that authenticate clients
+	cli := []variant{
+		{"good", mk(issClient, winValid, ekuClient, namExpected, "dialer")},
+		{"good2", mk(issClient, winValid, ekuBoth, namExpected, "dialer")},
+		{"otherca", mk(issRoot, winValid, ekuClient, namExpected, "dialer")},
+		{"expired", mk(issClient, winExpired, ekuClient, namExpected, "dialer")},
+		{"serverusage", mk(issClient, winValid, ekuServer, namExpected, "dialer")},
+	}
+	noCert := cli[0].cc.malformed("no-cert", r)
+	pinned := cli[0].cc
+	mpins := [][]byte{r.Bytes(32), pinned.D256} // what the m-pin profile pins: a stranger and the "good" dialer certificate
+
+	// ---- the listening node's configuration document ----
+	var doc strings.Builder
+	ports := map[string]int{}
+	profileOf := map[string]sprofile{}
+	for _, v := range srv {
+		cf, kf := e.writePair("srv-"+v.name, v.cc)
+		fmt.Fprintf(&doc, "- tls-server:\n    name: s-%s\n    cert: %s\n    key: %s\n    skipreceptornamescheck: true\n", v.name, cf, kf)
+	}
+	gcf, gkf := e.writePair("srv-good", srv[0].cc)
+	fmt.Fprintf(&doc, "- tls-server:\n    name: m-req\n    cert: %s\n    key: %s\n    requireclientcert: true\n    clientcas: %s\n", gcf, gkf, e.clientCAsFile)
+	fmt.Fprintf(&doc, "- tls-server:\n    name: m-pin\n    cert: %s\n    key: %s\n    requireclientcert: true\n    clientcas: %s\n    pinnedclientcert: %s\n",
+		gcf, gkf, e.clientCAsFile, yamlList([]string{spellFingerprint(mpins[0], 0), spellFingerprint(mpins[1], 3)}))
+	fmt.Fprintf(&doc, "- tls-server:\n    name: m-opt\n    cert: %s\n    key: %s\n    clientcas: %s\n", gcf, gkf, e.clientCAsFile)
+	fmt.Fprintf(&doc, "- tls-server:\n    name: s-tls13\n    cert: %s\n    key: %s\n    mintls13: true\n", gcf, gkf)
+	profileOf["m-req"] = sprofile{Require: true, CAs: true}
+	profileOf["m-pin"] = sprofile{Require: true, CAs: true, PinKind: pinMissThenMatch, Pins: mpins}
+	profileOf["m-opt"] = sprofile{Require: false, CAs: true}
+	addL := func(kind, prof string) {
+		p := freePort()
+		ports[kind+":"+prof] = p
+		fmt.Fprintf(&doc, "- %s-listener:\n    bindaddr: 127.0.0.1\n    port: %d\n    tls: %s\n", kind, p, prof)
+	}
+	for _, v := range srv[:5] {
+		addL("tcp", "s-"+v.name)
+	}
+	for _, pf := range []string{"m-req", "m-pin", "m-opt", "s-tls13"} {
+		addL("tcp", pf)
+	}
+	for _, pf := range []string{"s-good", "s-otherca", "m-req", "m-pin"} {
+		addL("ws", pf)
+	}
+	plainPort := freePort()
+	fmt.Fprintf(&doc, "- tcp-listener:\n    bindaddr: 127.0.0.1\n    port: %d\n", plainPort)
+	ctlPort := freePort()
+	fmt.Fprintf(&doc, "- control-service:\n    service: ctl\n    tls: m-req\n    tcplisten: 127.0.0.1:%d\n    tcptls: m-pin\n", ctlPort)
+	// outbound TCP proxies: receptor service -> TLS connection to an address
+	outTargets := []variant{srv[0], srv[1], srv[4], srv[2]}
+	fmt.Fprintf(&doc, "- tls-client:\n    name: px\n    rootcas: %s\n    cert: \"\"\n    key: \"\"\n", e.rootsFile)
+	for i, v := range outTargets {
+		port, stop := e.tlsEchoServer(v.cc)
+		defer stop()
+		fmt.Fprintf(&doc, "- tcp-client:\n    service: out%d\n    address: localhost:%d\n    tlsserver: s-good\n    tlsclient: px\n", i, port)
+	}
+	// a Unix-socket echo server behind an outbound unix proxy, and a command service, both with tls = m-req
+	uxEcho := filepath.Join(e.tmp, "echo.sock")
+	{
+		ul, err := net.Listen("unix", uxEcho)
+		Must(err)
+		defer ul.Close()
+		go func() {
+			for {
+				c, err := ul.Accept()
+				if err != nil {
+					return
+				}
+				go func() {
+					defer c.Close()
+					buf := make([]byte, 64)
+					n, err := c.Read(buf)
+					if err == nil {
+						_, _ = c.Write(append([]byte("echo:"), buf[:n]...))
+					}
+				}()
+			}
+		}()
+	}
+	fmt.Fprintf(&doc, "- unix-socket-client:\n    service: uxo\n    filename: %s\n    tls: m-req\n", uxEcho)
+	fmt.Fprintf(&doc, "- command-service:\n    service: cmd\n    command: \"echo echo:ping\"\n    tls: m-req\n")
+	if err := e.runYAML(A, ctl, doc.String()); err != nil {
+		e.im.Violate("the listening node's configuration is refused: "+err.Error(), "consumer-setup", doc.String())
+		return
+	}
+	e.im.Hist("consumer:listeners-configured")
+
+	// ---- (1) backends: the dialer verifies the listener (DNS name localhost) ----
+	pinChoices := func(cc *certCase) []cliProfile {
+		return []cliProfile{
+			{pinKind: pinNone},
+			{pinKind: pinSha256, pins: [][]byte{cc.D256}, style: r.Intn(4)},
+			{pinKind: pinMissLegal, pins: [][]byte{flip(cc.D256, r), r.Bytes(64)}, style: r.Intn(4)},
+			{pinKind: pinMissThenMatch, pins: [][]byte{r.Bytes(32), cc.D512}, style: r.Intn(4)},
+		}
+	}
+	seq := 0
+	tag := func() string { seq++; return fmt.Sprintf("%d", seq) }
+	for _, kind := range []string{"tcp", "ws"} {
+		j := consumerJudge{e, kind + "-backend-dialer"}
+		for _, v := range srv[:5] {
+			port, ok := ports[kind+":s-"+v.name]
+			if !ok {
+				continue
+			}
+			var terms []string
+			now := time.Now().UnixNano()
+			for k, cp := range pinChoices(v.cc) {
+				if kind == "ws" && k >= 2 {
+					continue
+				}
+				okc, err := e.backendDial(kind, port, cp, tag(), lid)
+				vr := vrun{vtServer, htDNS, "localhost", cp.pinKind, cp.pins}
+				j.judge(v.cc, vr, okc, err, "listener certificate "+v.name)
+				terms = append(terms, fmt.Sprintf("(cr (mkProfile false [] %s) %s %d %s)", hxpList(cp.pins), hxp([]byte("localhost")), htDNS, CoqBool(okc)))
+			}
+			e.cf.Add(fmt.Sprintf("TClient %d %s %s", now, v.cc.coqFacts(), CoqList(terms)), kind+" backend dialer vs listener certificate "+v.name)
+		}
+		// insecureskipverify: the operator opted out; nothing is checked (model: nothing installed)
+		if port, ok := ports[kind+":s-otherca"]; ok {
+			okc, _ := e.backendDial(kind, port, cliProfile{insecure: true}, tag(), lid)
+			e.im.Hist(fmt.Sprintf("consumer:%s-backend-dialer:insecureskipverify:ok=%v", kind, okc))
+			e.cf.Add(fmt.Sprintf("TClient %d %s [(cr (mkProfile true [] []) %s %d %s)]", time.Now().UnixNano(), srv[1].cc.coqFacts(), hxp([]byte("localhost")), htDNS, CoqBool(okc)),
+				kind+" backend dialer with insecureskipverify")
+		}
+	}
+	// TLS 1.3-only profile: same matrix entry, good certificate
+	{
+		okc, err := e.backendDial("tcp", ports["tcp:s-tls13"], cliProfile{}, tag(), lid)
+		consumerJudge{e, "tcp-backend-dialer"}.judge(srv[0].cc, vrun{vtServer, htDNS, "localhost", pinNone, nil}, okc, err, "mintls13 listener")
+	}
+
+	// ---- (2) backends: the listener verifies the dialer ----
+	for _, kind := range []string{"tcp", "ws"} {
+		j := consumerJudge{e, kind + "-backend-listener"}
+		for _, pf := range []string{"m-req", "m-pin", "m-opt"} {
+			port, ok := ports[kind+":"+pf]
+			if !ok {
+				continue
+			}
+			sp := profileOf[pf]
+			cands := append([]variant{}, cli...)
+			cands = append(cands, variant{"none", noCert})
+			for _, c := range cands {
+				if kind == "ws" && (c.name == "expired" || c.name == "serverusage") {
+					continue
+				}
+				cp := cliProfile{}
+				if c.cc.Present {
+					cp.cert = c.cc
+				}
+				now := time.Now().UnixNano()
+				okc, err := e.backendDial(kind, port, cp, tag(), lid)
+				j.judge(c.cc, vrun{vtClient, htDNS, "", sp.PinKind, sp.Pins}, okc, err, pf+" listener, dialer certificate "+c.name)
+				e.cf.Add(fmt.Sprintf("TServer %d %s [(sr %s %s)]", now, c.cc.coqFacts(), sp.coq(), CoqBool(okc)),
+					fmt.Sprintf("%s backend listener %s vs dialer certificate %s", kind, pf, c.name))
+			}
+		}
+	}
+
+	// ---- (3) control service, TCP listener with tcptls = m-pin ----
+	{
+		j := consumerJudge{e, "control-service-tcp"}
+		sp := profileOf["m-pin"]
+		cands := append([]variant{}, cli[:3]...)
+		cands = append(cands, variant{"none", noCert})
+		for _, c := range cands {
+			cfg := &tls.Config{InsecureSkipVerify: true}
+			if c.cc.Present {
+				crt := &tls.Certificate{Certificate: c.cc.Raw, PrivateKey: e.p.leafKey}
+				cfg.GetClientCertificate = func(*tls.CertificateRequestInfo) (*tls.Certificate, error) { return crt, nil }
+			}
+			now := time.Now().UnixNano()
+			okc := false
+			conn, err := tls.DialWithDialer(&net.Dialer{Timeout: 5 * time.Second}, "tcp", fmt.Sprintf("127.0.0.1:%d", ctlPort), cfg)
+			if err == nil {
+				okc, err = readBanner(conn, 5*time.Second)
+				_ = conn.Close()
+			}
+			j.judge(c.cc, vrun{vtClient, htDNS, "", sp.PinKind, sp.Pins}, okc, err, "client certificate "+c.name)
+			e.cf.Add(fmt.Sprintf("TServer %d %s [(sr %s %s)]", now, c.cc.coqFacts(), sp.coq(), CoqBool(okc)), "control service TCP listener (m-pin) vs client certificate "+c.name)
+		}
+	}
+
+	// ---- a node joined to cons-a over a plain TCP backend: the dialing side of receptor services ----
+	did := "dialer"
+	D, stopD := newNode(did)
+	defer stopD()
+	dsrv := mk(issRoot, winValid, ekuServer, namSeveral, did)
+	dcf, dkf := e.writePair("dialer-srv", dsrv)
+	otherNode := mk(issClient, winValid, ekuClient, namOther, did) // a good certificate of ANOTHER node
+	var dd strings.Builder
+	fmt.Fprintf(&dd, "- tcp-peer:\n    address: localhost:%d\n    redial: false\n", plainPort)
+	fmt.Fprintf(&dd, "- tls-client:\n    name: nocert\n    rootcas: %s\n    cert: \"\"\n    key: \"\"\n", e.rootsFile)
+	gc, gk := e.writePair("dialer-good", cli[0].cc)
+	fmt.Fprintf(&dd, "- tls-client:\n    name: own\n    rootcas: %s\n    cert: %s\n    key: %s\n", e.rootsFile, gc, gk) // receptor-names check ON: the certificate names this node
+	oc, ok2 := e.writePair("dialer-other", otherNode)
+	fmt.Fprintf(&dd, "- tls-client:\n    name: foreign\n    rootcas: %s\n    cert: %s\n    key: %s\n    skipreceptornamescheck: true\n", e.rootsFile, oc, ok2)
+	fmt.Fprintf(&dd, "- tls-server:\n    name: ib\n    cert: %s\n    key: %s\n    requireclientcert: true\n    clientcas: %s\n", dcf, dkf, e.clientCAsFile)
+	// receptor services on cons-a the inbound proxies forward to: echo listeners with stored profiles
+	for _, x := range []struct{ svc, prof string }{{"echog", "s-good"}, {"echon", "s-othernode"}} {
+		cfg, err := A.GetServerTLSConfig(x.prof)
+		Must(err)
+		li, err := A.ListenAndAdvertise(x.svc, cfg, nil)
+		Must(err)
+		go func() {
+			for {
+				c, err := li.Accept()
+				if err != nil {
+					if strings.Contains(err.Error(), "listener closed") {
+						return
+					}
+					continue
+				}
+				go func() {
+					buf := make([]byte, 64)
+					n, err := c.Read(buf)
+					if err == nil {
+						_, _ = c.Write(append([]byte("echo:"), buf[:n]...))
+					}
+					time.Sleep(200 * time.Millisecond)
+					_ = c.Close()
+				}()
+			}
+		}()
+	}
+	ibPorts := []int{freePort(), freePort(), freePort()}
+	fmt.Fprintf(&dd, "- tcp-server:\n    bindaddr: 127.0.0.1\n    port: %d\n    remotenode: %s\n    remoteservice: echog\n    tlsserver: ib\n    tlsclient: nocert\n", ibPorts[0], lid)
+	fmt.Fprintf(&dd, "- tcp-server:\n    bindaddr: 127.0.0.1\n    port: %d\n    remotenode: %s\n    remoteservice: echog\n    tlsclient: nocert\n", ibPorts[1], lid)
+	fmt.Fprintf(&dd, "- tcp-server:\n    bindaddr: 127.0.0.1\n    port: %d\n    remotenode: %s\n    remoteservice: echon\n    tlsclient: nocert\n", ibPorts[2], lid)
+	uxIn := []string{filepath.Join(e.tmp, "in-g.sock"), filepath.Join(e.tmp, "in-n.sock")}
+	fmt.Fprintf(&dd, "- unix-socket-server:\n    filename: %s\n    remotenode: %s\n    remoteservice: echog\n    tls: nocert\n", uxIn[0], lid)
+	fmt.Fprintf(&dd, "- unix-socket-server:\n    filename: %s\n    remotenode: %s\n    remoteservice: echon\n    tls: nocert\n", uxIn[1], lid)
+	if err := e.runYAML(D, nil, dd.String()); err != nil {
+		e.im.Violate("the dialing node's configuration is refused: "+err.Error(), "consumer-setup", dd.String())
+		return
+	}
+	// a client certificate that does not name the node is refused by tls-client unless skipreceptornamescheck
+	{
+		bad := fmt.Sprintf("- tls-client:\n    name: bad\n    rootcas: %s\n    cert: %s\n    key: %s\n", e.rootsFile, oc, ok2)
+		err := e.runYAML(D, nil, bad)
+		e.im.Hist(fmt.Sprintf("consumer:tls-client-own-name-check:refused=%v", err != nil))
+	}
+	if !WaitFor(10*time.Second, func() bool { _, ok := D.Status().RoutingTable[lid]; return ok && connectedTo(D, lid) }) {
+		e.im.Violate("plain TCP backend between the consumer nodes did not come up", "consumer-setup", nil)
+		return
+	}
+	rdial := func(profile, svc string) (net.Conn, error) {
+		tc, err := D.GetClientTLSConfig(profile, lid, netceptor.ExpectedHostnameTypeReceptor)
+		if err != nil {
+			return nil, err
+		}
+		ctx, cancel := context.WithTimeout(context.Background(), 8*time.Second)
+		defer cancel()
+		return D.DialContext(ctx, lid, svc, tc)
+	}
+
+	// ---- (4) receptor services configured with tls = m-req (control service, outbound unix proxy, command
+	//          service): each goes through listen(), which binds the client certificate to the source node ----
+	for _, svc := range []struct{ name, consumer string }{{"ctl", "control-service-receptor"}, {"uxo", "unix-socket-client-proxy"}, {"cmd", "command-service"}} {
+		j := consumerJudge{e, svc.consumer}
+		sp := profileOf["m-req"]
+		for _, c := range []struct {
+			profile string
+			cc      *certCase
+		}{{"own", cli[0].cc}, {"foreign", otherNode}, {"nocert", noCert}} {
+			now := time.Now().UnixNano()
+			okc := false
+			vr := vrun{vtClient, htRecv, did, sp.PinKind, sp.Pins}
+			conn, err := rdial(c.profile, svc.name)
+			if err == nil {
+				if svc.name == "ctl" {
+					okc, err = readBanner(conn, 5*time.Second)
+				} else {
+					okc, err = probeEcho(conn, echoWait(c.cc, vr))
+				}
+				_ = conn.Close()
+			}
+			j.judge(c.cc, vr, okc, err, "client profile "+c.profile)
+			e.cf.Add(fmt.Sprintf("TListen %d %s [(lr %s (mkAddr %s []) %s)]", now, c.cc.coqFacts(), sp.coq(), hxp([]byte(did)), CoqBool(okc)),
+				svc.consumer+" (tls m-req) vs client profile "+c.profile)
+		}
+	}
+
+	// ---- (5) outbound TCP proxies on cons-a: tls.Dial to the address with the tlsclient profile (DNS name) ----
+	{
+		j := consumerJudge{e, "tcp-client-proxy"}
+		for i, v := range outTargets {
+			now := time.Now().UnixNano()
+			okc := false
+			vr := vrun{vtServer, htDNS, "localhost", pinNone, nil}
+			conn, err := rdial("nocert", fmt.Sprintf("out%d", i))
+			if err == nil {
+				okc, err = probeEcho(conn, echoWait(v.cc, vr))
+				_ = conn.Close()
+			}
+			j.judge(v.cc, vr, okc, err, "target certificate "+v.name)
+			e.cf.Add(fmt.Sprintf("TClient %d %s [(cr (mkProfile false [] []) %s %d %s)]", now, v.cc.coqFacts(), hxp([]byte("localhost")), htDNS, CoqBool(okc)),
+				"outbound TCP proxy vs target certificate "+v.name)
+		}
+	}
+
+	// ---- (6) inbound TCP proxies on the dialer node ----
+	tcpProbe := func(port int, cfg *tls.Config, wait time.Duration) (bool, error) {
+		var conn net.Conn
+		var err error
+		if cfg == nil {
+			conn, err = net.DialTimeout("tcp", fmt.Sprintf("127.0.0.1:%d", port), 5*time.Second)
+		} else {
+			conn, err = tls.DialWithDialer(&net.Dialer{Timeout: 5 * time.Second}, "tcp", fmt.Sprintf("127.0.0.1:%d", port), cfg)
+		}
+		if err != nil {
+			return false, err
+		}
+		defer conn.Close()
+		return probeEcho(conn, wait)
+	}
+	{
+		// the TCP side authenticates clients with the tlsserver profile
+		j := consumerJudge{e, "tcp-server-proxy-listener"}
+		sp := sprofile{Require: true, CAs: true}
+		cands := append([]variant{}, cli[:1]...)
+		cands = append(cands, cli[2], cli[3], variant{"none", noCert})
+		for _, c := range cands {
+			cfg := &tls.Config{InsecureSkipVerify: true}
+			if c.cc.Present {
+				crt := &tls.Certificate{Certificate: c.cc.Raw, PrivateKey: e.p.leafKey}
+				cfg.GetClientCertificate = func(*tls.CertificateRequestInfo) (*tls.Certificate, error) { return crt, nil }
+			}
+			now := time.Now().UnixNano()
+			vr := vrun{vtClient, htDNS, "", pinNone, nil}
+			okc, err := tcpProbe(ibPorts[0], cfg, echoWait(c.cc, vr))
+			j.judge(c.cc, vr, okc, err, "client certificate "+c.name)
+			e.cf.Add(fmt.Sprintf("TServer %d %s [(sr %s %s)]", now, c.cc.coqFacts(), sp.coq(), CoqBool(okc)), "inbound TCP proxy listener vs client certificate "+c.name)
+		}
+		// the receptor side dials the remote service with the tlsclient profile, expecting the remote NODE ID
+		j = consumerJudge{e, "tcp-server-proxy-dialer"}
+		for _, x := range []struct {
+			port int
+			v    variant
+		}{{ibPorts[1], srv[0]}, {ibPorts[2], srv[5]}} {
+			now := time.Now().UnixNano()
+			vr := vrun{vtServer, htRecv, lid, pinNone, nil}
+			okc, err := tcpProbe(x.port, nil, echoWait(x.v.cc, vr))
+			j.judge(x.v.cc, vr, okc, err, "remote service certificate "+x.v.name)
+			e.cf.Add(fmt.Sprintf("TClient %d %s [(cr (mkProfile false [] []) %s %d %s)]", now, x.v.cc.coqFacts(), hxp([]byte(lid)), htRecv, CoqBool(okc)),
+				"inbound TCP proxy, receptor-side dial vs remote service certificate "+x.v.name)
+		}
+		// the same through the inbound Unix-socket proxies
+		j = consumerJudge{e, "unix-socket-server-dialer"}
+		for i, v := range []variant{srv[0], srv[5]} {
+			now := time.Now().UnixNano()
+			vr := vrun{vtServer, htRecv, lid, pinNone, nil}
+			okc := false
+			conn, err := net.DialTimeout("unix", uxIn[i], 5*time.Second)
+			if err == nil {
+				okc, err = probeEcho(conn, echoWait(v.cc, vr))
+				_ = conn.Close()
+			}
+			j.judge(v.cc, vr, okc, err, "remote service certificate "+v.name)
+			e.cf.Add(fmt.Sprintf("TClient %d %s [(cr (mkProfile false [] []) %s %d %s)]", now, v.cc.coqFacts(), hxp([]byte(lid)), htRecv, CoqBool(okc)),
+				"inbound Unix-socket proxy, receptor-side dial vs remote service certificate "+v.name)
+		}
+	}
+}
